@@ -1,8 +1,8 @@
 CONSTANTS
   RATE = 8
   WIDTH = 12
-  Disabled = {"pow_witness"}
-  UseEnvConfigs = FALSE
+  Mutants = {{"pow_witness"}}
+  ConfigSet = "one"
 INIT Init
 NEXT Next
 CHECK_DEADLOCK FALSE
